@@ -21,6 +21,7 @@ import copy
 import itertools
 import os
 import sys
+import time
 sys.path.insert(0, os.path.dirname(os.path.dirname(os.path.abspath(__file__))))
 from bounded.common import Run, watchdog, Timeout
 
@@ -232,12 +233,23 @@ def cat(e):
     return type(e).__name__
 
 
+class TooManyHangs(Exception):
+    pass
+
+
+HANGS = [0]
+
+
 def call(f, *a, **k):
-    """("ok", result) | ("exc", category, exception)"""
+    """("ok", result) | ("exc", category, exception); a call that does not return within 2 s counts as "Timeout";
+    after 4 of them in one scope the scope is abandoned (each would cost 2 s)"""
     try:
         with watchdog(2):
             return ("ok", f(*a, **k))
     except Timeout:
+        HANGS[0] += 1
+        if HANGS[0] > 4:
+            raise TooManyHangs()
         return ("exc", "Timeout", None)
     except Exception as e:
         return ("exc", cat(e), e)
@@ -913,272 +925,285 @@ def body(R):
     rng = R.rng
     T = R.thorough
     P = ["a", "b", ""]
-
-    # ---------------------------------------------------------------- get_recursively
-    leaves = [0, "b", None]
-    cs2 = contexts(["a", "b"], leaves, 2)
-    ps = list(paths(P, 4))
-    R.scope("get_recursively (three notations, default)",
-            "all %d contexts over keys {a,b}, nesting depth <= 2, leaves {0,'b',None}; all %d paths of length 0..4 over "
-            "components {a,b,''}; notations list / dotted string / one-key-per-level dict; without default and with default=None; "
-            "result must be the very object / LenaKeyError" % (len(cs2), len(ps)), True)
-    for ctx in cs2:
-        before = copy.deepcopy(ctx)
-        for ks in ps:
-            R.case(lookup(ctx, ks) is not ABSENT or through_scalar(ctx, ks), {"ctx": ctx, "path": ks})
-            report(R, "chk_get", [ctx, ks], chk_get(ctx, ks))
-        R.check(ctx == before, "get_recursively/context-modified", "get_recursively changed %r to %r" % (before, ctx), {"ctx": before})
+    cs2 = contexts(["a", "b"], [0, "b", None], 2)
     cs3 = contexts(["a", "b"], [0, "b"], 3)
     if not T:
         cs3 = rng.sample(cs3, 250)
-    R.scope("get_recursively (three notations, default), depth 3",
-            "%s contexts over keys {a,b}, nesting depth <= 3, leaves {0,'b'}; same %d paths and notations"
-            % ("all %d" % len(cs3) if T else "%d sampled" % len(cs3), len(ps)), T)
-    for ctx in cs3:
-        for ks in ps:
-            R.case(lookup(ctx, ks) is not ABSENT or through_scalar(ctx, ks))
-            report(R, "chk_get", [ctx, ks], chk_get(ctx, ks))
-    R.scope("get_recursively argument errors", "8 documented malformed arguments (non-dict d, non-str/list/dict keys, non-str list member, "
-            "two keys at a level)", True)
-    R.case(True)
-    report(R, "chk_get_types", [], chk_get_types())
-
-    # ---------------------------------------------------------------- str_to_dict / str_to_list / law
-    vtags = [0, None, "", "b", [1], {}, {"a": 1}, OBJ]
-    lp = list(paths(P, 4, 1))
-    lp = [p for p in lp if p != [""]]
-    R.scope("str_to_dict / str_to_list / law get_recursively(str_to_dict(s, v), s) is v",
-            "all %d dotted strings of 1..4 components over {a,b,''} x %d values (falsy, mutable, opaque object); also the "
-            "dictionary notation str_to_dict(s) and the list notation" % (len(lp), len(vtags)), True)
-    for ks in lp:
-        for vt in vtags:
-            R.case(True, {"s": ".".join(ks), "v": vt})
-            report(R, "chk_law", [ks, vt], chk_law(ks, vt))
-    R.case(True)
-    report(R, "chk_law_empty", [], chk_law_empty())
-
-    # ---------------------------------------------------------------- contains
-    PC = ["a", "b", "", "0"]
-    leaves_c = [0, "b", "ab", None, ["b"]]
-    csc = contexts(["a", "b"], leaves_c, 2)
-    if not T:
-        csc = csc[::3]
-    pc = [p for p in paths(PC, 4 if T else 3, 1)]
-    R.scope("contains", "%d contexts over keys {a,b}, depth <= 2, leaves {0,'b','ab',None,['b']} (%s); all %d dotted strings of 1..%d "
-            "components over {a,b,'','0'}: True iff get_recursively finds the path or the parent is a scalar whose str() is the last component; "
-            "no exception" % (len(csc), "all" if T else "every third", len(pc), 4 if T else 3), T)
-    for ctx in csc:
-        for ks in pc:
-            R.case(True, {"ctx": ctx, "s": ".".join(ks)})
-            report(R, "chk_contains", [ctx, ks], chk_contains(ctx, ks))
-
-    # ---------------------------------------------------------------- format_context, well-formed templates
-    fctx = [{}, {"a": 1}, {"a": {"b": 2, "a": ""}, "b": "B"}, {"a": {"b": {"a": 0}}, "b": None},
-            {"a": "", "b": {"a": [1], "b": {"x": 1}}}, {"a": {"a": "x", "b": {"a": {"b": "deep"}}}, "b": {"b": {}}}]
-    fields = ["a", "b", "a.b", "b.a", "a.b.a", "a.b.a.b", "a.a", "b.b"] if T else ["a", "b", "a.b", "b.a", "a.b.a.b"]
-    lits = ["", "x", "a.b ", ":!"] if T else ["", "x", ":!a."]
-    tpls = []
-    for n in range(0, 4):
-        for fs in itertools.product(fields, repeat=n):
-            for ls in itertools.product(lits, repeat=n + 1):
-                p = []
-                for i in range(n):
-                    if ls[i]:
-                        p.append(["L", ls[i]])
-                    p.append(["F", fs[i], ""])
-                if ls[n]:
-                    p.append(["L", ls[n]])
-                tpls.append(p)
-    if T:
-        tpls = tpls[:4000] + rng.sample(tpls[4000:], 36000)
-    R.scope("format_context (well-formed templates)",
-            "%s %d templates of 0..3 fields from %r separated by literals from %r, x %d contexts (items present, absent, falsy, "
-            "through a scalar): renders exactly the addressed items / LenaKeyError" % ("" if not T else "all with <= 2 fields and a sample of the", len(tpls), fields, lits, len(fctx)), not T)
-    for p in tpls:
-        for ctx in fctx:
-            R.case(True, {"template": tpl_text(p), "ctx": ctx})
-            report(R, "chk_fmt", [p, ctx], chk_fmt(p, ctx))
-    sfx = ["!r", "!s", ":>4", ":<3", "!r:>6", ":", "!a"]
-    vctx = [{"a": 5, "b": {"a": "s"}}, {"a": "é", "b": {"a": 12}}, {"b": {"a": 0}}]
-    R.scope("format_context (conversions and format specs)", "1..2 fields from {a, b.a} with suffix from %r, literals {'', '-'}, x %d contexts with "
-            "int/str items" % (sfx, len(vctx)), True)
-    for n in (1, 2):
-        for fs in itertools.product(["a", "b.a"], repeat=n):
-            for ss in itertools.product(sfx + [""], repeat=n):
-                for lit in ("", "-"):
-                    p = []
-                    for i in range(n):
-                        p.append(["F", fs[i], ss[i]])
-                        if lit:
-                            p.append(["L", lit])
-                    for ctx in vctx:
-                        R.case(True)
-                        report(R, "chk_fmt", [p, ctx], chk_fmt(p, ctx))
-    R.case(True)
-    report(R, "chk_fmt_types", [], chk_fmt_types())
-
-    # ---------------------------------------------------------------- arbitrary template strings through format_update_with
-    alpha = "{}a.:!x" + ("b " if T else "")
-    maxlen = 5
-    R.scope("format_update_with / format_context on arbitrary strings",
-            "all strings of length 0..%d over the alphabet %r as value of format_update_with('k.j', value, %r): only Lena exceptions, "
-            "well-formed ones rendered exactly, the dictionary untouched on error and outside k otherwise" % (maxlen, alpha, TPL_CTX), True)
-    for n in range(0, maxlen + 1):
-        for chars in itertools.product(alpha, repeat=n):
-            t = "".join(chars)
-            R.case("{" in t, {"value": t} if "{{" in t else None)
-            report(R, "chk_template_string", [t], chk_template_string(t))
-
-    # ---------------------------------------------------------------- format_update_with frame
-    values = [0, None, {"b": {"z": 1}}, [1], "lit", "", "{{a}}", "x{{a.b}}_{{b}}", "{{b.a}}{{a}}", {}]
-    fkeys = list(paths(P, 3)) + [["a", "b", "a", "b"]]
-    fkeys = [k for k in fkeys if k != [""]]
-    fcs = CURATED + (rng.sample(cs2, 60) if T else rng.sample(cs2, 12))
-    R.scope("format_update_with (frame)", "%d contexts (curated + sampled depth-2) x %d keys of 0..4 components over {a,b,''} x %d values "
-            "(simple, falsy, dict to merge, literal, templates with present/absent fields): exactly d[key] changes; LenaKeyError / "
-            "LenaValueError leave d unchanged" % (len(fcs), len(fkeys), len(values)), False)
-    for ctx in fcs:
-        for ks in fkeys:
-            for v in values:
-                R.case(True, {"ctx": ctx, "key": ".".join(ks), "value": v})
-                report(R, "chk_fuw", [ctx, ks, v], chk_fuw(ctx, ks, v))
-
-    # ---------------------------------------------------------------- to_string
-    tl = [0, "0", None, "null", [0], "[0]", ""]
-    tcs = contexts(["a", "b"], tl, 2)
-    if not T:
-        tcs = tcs[::4]
-    tcs = tcs + [c for c in CURATED] + [{"a\":0,\"b": 0}, {"a": 0, "b": 0}, {"a.b": 1}, {"a": {"b": 1}}, {"a": [{"b": 1, "a": 2}]}, {"a": [{"a": 2, "b": 1}, 0]}]
-    R.scope("to_string", "%d contexts over keys {a,b}, depth <= 2, leaves {0,'0',None,'null',[0],'[0]',''} (%s) + %d curated (depth 3, quotes in keys, "
-            "dicts inside lists): three other key insertion orders give the same string; no two different contexts give the same string "
-            "(all pairs, via a table)" % (len(tcs) - len(CURATED) - 6, "all" if T else "every fourth", len(CURATED) + 6), T)
-    seen = {}
-    for ctx in tcs:
-        R.case(True, {"ctx": ctx})
-        report(R, "chk_tostring", [ctx], chk_tostring(ctx))
-        r = call(to_string, ctx)
-        if r[0] == "ok":
-            other = seen.setdefault(r[1], ctx)
-            if other is not ctx and other != ctx:
-                report(R, "chk_tostring_pair", [other, ctx], chk_tostring_pair(other, ctx))
-    R.case(True)
-    report(R, "chk_tostring_bad", [], chk_tostring_bad())
-
-    # ---------------------------------------------------------------- DeleteContext
-    dcs = cs2 if T else cs2[::2]
-    dps = list(paths(P, 4))
-    R.scope("DeleteContext", "%d contexts over keys {a,b}, depth <= 2, leaves {0,'b',None} (%s) x all %d paths of length 0..4 over {a,b,''} x "
-            "notations dotted string / list / tuple: exactly the addressed item disappears, absent or through-a-scalar paths are ignored, data "
-            "untouched, no non-Lena exception" % (len(dcs), "all" if T else "every second", len(dps)), T)
-    for ctx in dcs:
-        for ks in dps:
-            for notation in ("dotted-string", "list", "tuple"):
-                if notation == "dotted-string" and ks == [""]:
-                    continue
-                R.case(True, {"ctx": ctx, "key": ks, "notation": notation})
-                report(R, "chk_delete", [ctx, ks, notation], chk_delete(ctx, ks, notation))
-    for ctx in CURATED:
-        for ks in dps:
-            R.case(True)
-            report(R, "chk_delete", [ctx, ks, "list"], chk_delete(ctx, ks, "list"))
-    R.case(True)
-    report(R, "chk_delete_nocontext", [], chk_delete_nocontext())
-
-    # ---------------------------------------------------------------- UpdateContext
-    updates = [7, 0, None, {"k": 1}, {"b": {"z": [1]}}, [1, [2]],
-               "lit", "", "{{a}}", "x{{a.b}}_{{b}}", "{{b.a.b}}{{a}}", "{{c}}-", "{{a.b}}", "{{b.a.b}}", "{{c}}", "{{a.b.a.b}}",
-               "{{a}}{{b}}", "{{a}}x"] + MALFORMED_JINJA
-    subs = [".".join(p) for p in paths(["a", "b"], 3, 1)] + ["a..b", ".a", "a.", "a.b.a.b"]
-    if not T:
-        subs = ["a", "b", "a.b", "b.a", "a.a", "a.b.a", "b.a.b", "a..b", ".a", "a.b.a.b"]
-    uctx = CURATED + (rng.sample(cs3, 20) if T else [])
+    ps = list(paths(P, 4))
     opts = [{"value": v, "default": d, "skip": s, "rais": r, "rec": rec}
             for v in (False, True) for d in (UNSET, None, {"k": [1]}) for s in (False, True) for r in (False, True) for rec in (True, False)]
-    R.scope("UpdateContext (option matrix, frame, deep copy)",
-            "%d updates (simple incl. falsy and mutable, literal, formatting strings of 0..2 fields, context values, malformed templates) x all %d "
-            "combinations of value/default{unset,None,dict}/skip_on_missing/raise_on_missing/recursively x subcontexts %r (+ '', non-strings for "
-            "construction) x %d contexts of depth <= 3: LenaValueError/LenaTypeError exactly for the documented conflicts; otherwise exactly the "
-            "addressed item becomes the value / rendered template / deep copy, missing keys handled as configured, data untouched"
-            % (len(updates), len(opts), subs, len(uctx)), False)
-    for update in updates:
-        for o in opts:
-            for sub in ("", 5, None, ["a"]):
-                R.case(True)
-                report(R, "chk_uc", [[], sub, update, o], chk_uc([], sub, update, o))
-            kind, errs = ref_uc_init("a", update, o)
-            for sub in (subs if not errs else subs[:1]):
-                fails = chk_uc(uctx, sub, update, o)
-                for _ in uctx if not errs else [0]:
-                    R.case(True, {"sub": sub, "update": update, "options": o})
-                # report with the single offending context for a short replay
-                for fid, what in fails:
-                    bad = [c for c in uctx if any(f == fid for f, _ in chk_uc([c], sub, update, o))][:1]
-                    R.fail(fid, what, {"checker": "chk_uc", "args": [bad, sub, update, o]}, {"fn": "chk_uc", "args": [fid, bad, sub, update, o]})
-    o0 = {"value": False, "default": UNSET, "skip": False, "rais": False, "rec": True}
-    for update in (7, {"k": 1}, "lit", "{{a}}"):
+
+    def scope_1():   # get_recursively
+        R.scope("get_recursively (three notations, default)",
+                "all %d contexts over keys {a,b}, nesting depth <= 2, leaves {0,'b',None}; all %d paths of length 0..4 over "
+                "components {a,b,''}; notations list / dotted string / one-key-per-level dict; without default and with default=None; "
+                "result must be the very object / LenaKeyError" % (len(cs2), len(ps)), True)
+        for ctx in cs2:
+            before = copy.deepcopy(ctx)
+            for ks in ps:
+                R.case(lookup(ctx, ks) is not ABSENT or through_scalar(ctx, ks), {"ctx": ctx, "path": ks})
+                report(R, "chk_get", [ctx, ks], chk_get(ctx, ks))
+            R.check(ctx == before, "get_recursively/context-modified", "get_recursively changed %r to %r" % (before, ctx), {"ctx": before})
+        R.scope("get_recursively (three notations, default), depth 3",
+                "%s contexts over keys {a,b}, nesting depth <= 3, leaves {0,'b'}; same %d paths and notations"
+                % ("all %d" % len(cs3) if T else "%d sampled" % len(cs3), len(ps)), T)
+        for ctx in cs3:
+            for ks in ps:
+                R.case(lookup(ctx, ks) is not ABSENT or through_scalar(ctx, ks))
+                report(R, "chk_get", [ctx, ks], chk_get(ctx, ks))
+        R.scope("get_recursively argument errors", "8 documented malformed arguments (non-dict d, non-str/list/dict keys, non-str list member, "
+                "two keys at a level)", True)
         R.case(True)
-        report(R, "chk_uc", [[{}], "a.b", update, o0, True], chk_uc([{}], "a.b", update, o0, True))
+        report(R, "chk_get_types", [], chk_get_types())
 
-    # ---------------------------------------------------------------- meta elements
-    mvals = [0, {"b": {"z": [1]}}, [1], "lit", "{{a}}", "x{{a.b}}_{{b}}"]
-    mkeys = [p for p in paths(["a", "b"], 2, 1)] + [["a", "", "b"], ["a", "b", "a", "b"]]
-    R.scope("SetContext / UpdateContextFromStatic", "%d contexts x %d keys x %d values: the static context gets exactly the addressed item, "
-            "_get_context returns copies, LenaKeyError while a template field is absent; the runtime update merges a deep copy into each value of "
-            "a 3-value flow" % (len(CURATED), len(mkeys), len(mvals)), False)
-    for ctx in CURATED:
-        for ks in mkeys:
-            for v in mvals:
-                R.case(True, {"ctx": ctx, "key": ".".join(ks), "value": v})
-                report(R, "chk_meta", [ctx, ks, v], chk_meta(ctx, ks, v))
+    def scope_2():   # str_to_dict / str_to_list / law
+        vtags = [0, None, "", "b", [1], {}, {"a": 1}, OBJ]
+        lp = list(paths(P, 4, 1))
+        lp = [p for p in lp if p != [""]]
+        R.scope("str_to_dict / str_to_list / law get_recursively(str_to_dict(s, v), s) is v",
+                "all %d dotted strings of 1..4 components over {a,b,''} x %d values (falsy, mutable, opaque object); also the "
+                "dictionary notation str_to_dict(s) and the list notation" % (len(lp), len(vtags)), True)
+        for ks in lp:
+            for vt in vtags:
+                R.case(True, {"s": ".".join(ks), "v": vt})
+                report(R, "chk_law", [ks, vt], chk_law(ks, vt))
+        R.case(True)
+        report(R, "chk_law_empty", [], chk_law_empty())
 
-    # ---------------------------------------------------------------- random breadth
-    n = 30000 if T else 2500
-    RK = ["a", "b", "c", ""]
-    RP = ["a", "b", "c", "", "x", "0"]
-    R.scope("all functions, random contexts", "%d random contexts over keys {a,b,c,''}, depth <= 3, uniquely tagged leaves incl. falsy ones, "
-            "each with a random path of length 0..4 over {a,b,c,'',x,'0'} (half of them chosen among the present paths): get_recursively, "
-            "contains, DeleteContext, format_context (0..3 random fields), format_update_with, to_string, UpdateContext with a random "
-            "option combination" % n, False)
-    dflt = ["default"]
-    for _ in range(n):
-        ctx = rand_ctx(rng, RK, 3, [0])
-        ks = [rng.choice(RP) for _ in range(rng.randint(0, 4))]
-        if rng.random() < 0.5:
-            ks, cur = [], ctx
-            while isinstance(cur, dict) and cur and rng.random() < 0.8:
-                k = rng.choice(sorted(cur))
-                ks.append(k)
-                cur = cur[k]
-            if rng.random() < 0.3:
-                ks.append(rng.choice(RP))
-        R.case(True, {"ctx": ctx, "path": ks})
-        fails = chk_get(ctx, ks, (UNSET, dflt))
-        for fid, what in fails:
-            R.fail(fid, what, {"checker": "chk_get", "args": [ctx, ks]}, {"fn": "chk_get", "args": [fid, ctx, ks, [UNSET, ["default"]]]})
-        if ks:
-            report(R, "chk_contains", [ctx, ks], chk_contains(ctx, ks))
-        notation = rng.choice(["dotted-string", "list", "tuple"])
-        if not (notation == "dotted-string" and ks == [""]):
-            report(R, "chk_delete", [ctx, ks, notation], chk_delete(ctx, ks, notation))
-        nice = [k for k in ks if k] or ["a"]
-        p = []
-        for i in range(rng.randint(0, 3)):
-            p.append(["L", rng.choice(["x", "_", "a.b", " "])])
-            p.append(["F", ".".join(nice[:rng.randint(1, len(nice))]) if rng.random() < 0.7 else rng.choice(["a", "b.a", "c.c.c", "q"]), ""])
-        report(R, "chk_fmt", [p, ctx], chk_fmt(p, ctx))
-        v = rng.choice([0, {"a": {"n": 1}}, "lit", tpl_text(p), ["l"]])
-        if ks != [""] and not (isinstance(v, str) and has_empty_component(p)):
-            report(R, "chk_fuw", [ctx, ks, v], chk_fuw(ctx, ks, v))
-        report(R, "chk_tostring", [ctx], chk_tostring(ctx))
-        if ks and ks != [""]:
-            o = rng.choice(opts)
-            jp = [x for x in p if not (x[0] == "F" and not all(c.isidentifier() for c in x[1].split(".")))]
-            src = ".".join(nice)
-            update = rng.choice([7, {"a": {"n": [1]}}, "lit", tpl_text(jp), "{{%s}}" % src, "{{%s}}" % src, "{{b.a}}"])
-            if isinstance(update, str) and "{" in update and jinja_pieces(update) is None and not (o["value"] and is_single_field(update)):
-                update = "lit"
-            fails = chk_uc([ctx], ".".join(ks), update, o)
-            report(R, "chk_uc", [[ctx], ".".join(ks), update, o], fails)
+    def scope_3():   # contains
+        PC = ["a", "b", "", "0"]
+        leaves_c = [0, "b", "ab", None, ["b"]]
+        csc = contexts(["a", "b"], leaves_c, 2)
+        pc = [p for p in paths(PC, 4 if T else 3, 1)]
+        R.scope("contains", "%d contexts over keys {a,b}, depth <= 2, leaves {0,'b','ab',None,['b']} (%s); all %d dotted strings of 1..%d "
+                "components over {a,b,'','0'}: True iff get_recursively finds the path or the parent is a scalar whose str() is the last component; "
+                "no exception" % (len(csc), "all", len(pc), 4 if T else 3), True)
+        for ctx in csc:
+            for ks in pc:
+                R.case(True, {"ctx": ctx, "s": ".".join(ks)})
+                report(R, "chk_contains", [ctx, ks], chk_contains(ctx, ks))
+
+    def scope_4():   # format_context, well-formed templates
+        fctx = [{}, {"a": 1}, {"a": {"b": 2, "a": ""}, "b": "B"}, {"a": {"b": {"a": 0}}, "b": None},
+                {"a": "", "b": {"a": [1], "b": {"x": 1}}}, {"a": {"a": "x", "b": {"a": {"b": "deep"}}}, "b": {"b": {}}}]
+        fields = ["a", "b", "a.b", "b.a", "a.b.a", "a.b.a.b", "a.a", "b.b"] if T else ["a", "b", "a.b", "b.a", "a.b.a.b"]
+        lits = ["", "x", "a.b ", ":!"] if T else ["", "x", ":!a."]
+        tpls = []
+        for n in range(0, 4):
+            for fs in itertools.product(fields, repeat=n):
+                for ls in itertools.product(lits, repeat=n + 1):
+                    p = []
+                    for i in range(n):
+                        if ls[i]:
+                            p.append(["L", ls[i]])
+                        p.append(["F", fs[i], ""])
+                    if ls[n]:
+                        p.append(["L", ls[n]])
+                    tpls.append(p)
+        if T:
+            small = [p for p in tpls if sum(1 for x in p if x[0] == "F") <= 2]
+            tpls = small + rng.sample([p for p in tpls if sum(1 for x in p if x[0] == "F") == 3], 36000)
+        R.scope("format_context (well-formed templates)",
+                "%s %d templates of 0..3 fields from %r separated by literals from %r, x %d contexts (items present, absent, falsy, "
+                "through a scalar): renders exactly the addressed items / LenaKeyError" % ("" if not T else "all with <= 2 fields and a sample of the", len(tpls), fields, lits, len(fctx)), not T)
+        for p in tpls:
+            for ctx in fctx:
+                R.case(True, {"template": tpl_text(p), "ctx": ctx})
+                report(R, "chk_fmt", [p, ctx], chk_fmt(p, ctx))
+        sfx = ["!r", "!s", ":>4", ":<3", "!r:>6", ":", "!a"]
+        vctx = [{"a": 5, "b": {"a": "s"}}, {"a": "é", "b": {"a": 12}}, {"b": {"a": 0}}]
+        R.scope("format_context (conversions and format specs)", "1..2 fields from {a, b.a} with suffix from %r, literals {'', '-'}, x %d contexts with "
+                "int/str items" % (sfx, len(vctx)), True)
+        for n in (1, 2):
+            for fs in itertools.product(["a", "b.a"], repeat=n):
+                for ss in itertools.product(sfx + [""], repeat=n):
+                    for lit in ("", "-"):
+                        p = []
+                        for i in range(n):
+                            p.append(["F", fs[i], ss[i]])
+                            if lit:
+                                p.append(["L", lit])
+                        for ctx in vctx:
+                            R.case(True)
+                            report(R, "chk_fmt", [p, ctx], chk_fmt(p, ctx))
+        R.case(True)
+        report(R, "chk_fmt_types", [], chk_fmt_types())
+
+    def scope_5():   # arbitrary template strings through format_update_with
+        alpha = "{}a.:!x" + ("b " if T else "")
+        maxlen = 5
+        R.scope("format_update_with / format_context on arbitrary strings",
+                "all strings of length 0..%d over the alphabet %r as value of format_update_with('k.j', value, %r): only Lena exceptions, "
+                "well-formed ones rendered exactly, the dictionary untouched on error and outside k otherwise" % (maxlen, alpha, TPL_CTX), True)
+        for n in range(0, maxlen + 1):
+            for chars in itertools.product(alpha, repeat=n):
+                t = "".join(chars)
+                R.case("{" in t, {"value": t} if "{{" in t else None)
+                report(R, "chk_template_string", [t], chk_template_string(t))
+
+    def scope_6():   # format_update_with frame
+        values = [0, None, {"b": {"z": 1}}, [1], "lit", "", "{{a}}", "x{{a.b}}_{{b}}", "{{b.a}}{{a}}", {}]
+        fkeys = list(paths(P, 3)) + [["a", "b", "a", "b"]]
+        fkeys = [k for k in fkeys if k != [""]]
+        fcs = CURATED + (rng.sample(cs2, 60) if T else rng.sample(cs2, 12))
+        R.scope("format_update_with (frame)", "%d contexts (curated + sampled depth-2) x %d keys of 0..4 components over {a,b,''} x %d values "
+                "(simple, falsy, dict to merge, literal, templates with present/absent fields): exactly d[key] changes; LenaKeyError / "
+                "LenaValueError leave d unchanged" % (len(fcs), len(fkeys), len(values)), False)
+        for ctx in fcs:
+            for ks in fkeys:
+                for v in values:
+                    R.case(True, {"ctx": ctx, "key": ".".join(ks), "value": v})
+                    report(R, "chk_fuw", [ctx, ks, v], chk_fuw(ctx, ks, v))
+
+    def scope_7():   # to_string
+        tl = [0, "0", None, "null", [0], "[0]", ""]
+        tcs = contexts(["a", "b"], tl, 2)
+        if not T:
+            tcs = tcs[::4]
+        tcs = tcs + [c for c in CURATED] + [{"a\":0,\"b": 0}, {"a": 0, "b": 0}, {"a.b": 1}, {"a": {"b": 1}}, {"a": [{"b": 1, "a": 2}]}, {"a": [{"a": 2, "b": 1}, 0]}]
+        R.scope("to_string", "%d contexts over keys {a,b}, depth <= 2, leaves {0,'0',None,'null',[0],'[0]',''} (%s) + %d curated (depth 3, quotes in keys, "
+                "dicts inside lists): three other key insertion orders give the same string; no two different contexts give the same string "
+                "(all pairs, via a table)" % (len(tcs) - len(CURATED) - 6, "all" if T else "every fourth", len(CURATED) + 6), T)
+        seen = {}
+        for ctx in tcs:
+            R.case(True, {"ctx": ctx})
+            report(R, "chk_tostring", [ctx], chk_tostring(ctx))
+            r = call(to_string, ctx)
+            if r[0] == "ok":
+                other = seen.setdefault(r[1], ctx)
+                if other is not ctx and other != ctx:
+                    report(R, "chk_tostring_pair", [other, ctx], chk_tostring_pair(other, ctx))
+        R.case(True)
+        report(R, "chk_tostring_bad", [], chk_tostring_bad())
+
+    def scope_8():   # DeleteContext
+        dcs = cs2 if T else cs2[::2]
+        dps = list(paths(P, 4))
+        R.scope("DeleteContext", "%d contexts over keys {a,b}, depth <= 2, leaves {0,'b',None} (%s) x all %d paths of length 0..4 over {a,b,''} x "
+                "notations dotted string / list / tuple: exactly the addressed item disappears, absent or through-a-scalar paths are ignored, data "
+                "untouched, no non-Lena exception" % (len(dcs), "all" if T else "every second", len(dps)), T)
+        for ctx in dcs:
+            for ks in dps:
+                for notation in ("dotted-string", "list", "tuple"):
+                    if notation == "dotted-string" and ks == [""]:
+                        continue
+                    R.case(True, {"ctx": ctx, "key": ks, "notation": notation})
+                    report(R, "chk_delete", [ctx, ks, notation], chk_delete(ctx, ks, notation))
+        for ctx in CURATED:
+            for ks in dps:
+                R.case(True)
+                report(R, "chk_delete", [ctx, ks, "list"], chk_delete(ctx, ks, "list"))
+        R.case(True)
+        report(R, "chk_delete_nocontext", [], chk_delete_nocontext())
+
+    def scope_9():   # UpdateContext
+        updates = [7, 0, None, {"k": 1}, {"b": {"z": [1]}}, [1, [2]],
+                   "lit", "", "{{a}}", "x{{a.b}}_{{b}}", "{{b.a.b}}{{a}}", "{{c}}-", "{{a.b}}", "{{b.a.b}}", "{{c}}", "{{a.b.a.b}}",
+                   "{{a}}{{b}}", "{{a}}x"] + MALFORMED_JINJA
+        subs = [".".join(p) for p in paths(["a", "b"], 3, 1)] + ["a..b", ".a", "a.", "a.b.a.b"]
+        if not T:
+            subs = ["a", "b", "a.b", "b.a", "a.a", "a.b.a", "b.a.b", "a..b", ".a", "a.b.a.b"]
+        uctx = CURATED + (rng.sample(cs3, 20) if T else [])
+        R.scope("UpdateContext (option matrix, frame, deep copy)",
+                "%d updates (simple incl. falsy and mutable, literal, formatting strings of 0..2 fields, context values, malformed templates) x all %d "
+                "combinations of value/default{unset,None,dict}/skip_on_missing/raise_on_missing/recursively x subcontexts %r (+ '', non-strings for "
+                "construction) x %d contexts of depth <= 3: LenaValueError/LenaTypeError exactly for the documented conflicts; otherwise exactly the "
+                "addressed item becomes the value / rendered template / deep copy, missing keys handled as configured, data untouched"
+                % (len(updates), len(opts), subs, len(uctx)), False)
+        for update in updates:
+            for o in opts:
+                for sub in ("", 5, None, ["a"]):
+                    R.case(True)
+                    report(R, "chk_uc", [[], sub, update, o], chk_uc([], sub, update, o))
+                kind, errs = ref_uc_init("a", update, o)
+                for sub in (subs if not errs else subs[:1]):
+                    fails = chk_uc(uctx, sub, update, o)
+                    for _ in uctx if not errs else [0]:
+                        R.case(True, {"sub": sub, "update": update, "options": o})
+                    # report with the single offending context for a short replay
+                    for fid, what in fails:
+                        if R.fail_counts.get(fid, 0) >= 3:
+                            R.fail(fid, what)
+                            continue
+                        bad = [c for c in uctx if any(f == fid for f, _ in chk_uc([c], sub, update, o))][:1]
+                        R.fail(fid, what, {"checker": "chk_uc", "args": [bad, sub, update, o]}, {"fn": "chk_uc", "args": [fid, bad, sub, update, o]})
+        o0 = {"value": False, "default": UNSET, "skip": False, "rais": False, "rec": True}
+        for update in (7, {"k": 1}, "lit", "{{a}}"):
+            R.case(True)
+            report(R, "chk_uc", [[{}], "a.b", update, o0, True], chk_uc([{}], "a.b", update, o0, True))
+
+    def scope_10():   # meta elements
+        mvals = [0, {"b": {"z": [1]}}, [1], "lit", "{{a}}", "x{{a.b}}_{{b}}"]
+        mkeys = [p for p in paths(["a", "b"], 2, 1)] + [["a", "", "b"], ["a", "b", "a", "b"]]
+        R.scope("SetContext / UpdateContextFromStatic", "%d contexts x %d keys x %d values: the static context gets exactly the addressed item, "
+                "_get_context returns copies, LenaKeyError while a template field is absent; the runtime update merges a deep copy into each value of "
+                "a 3-value flow" % (len(CURATED), len(mkeys), len(mvals)), False)
+        for ctx in CURATED:
+            for ks in mkeys:
+                for v in mvals:
+                    R.case(True, {"ctx": ctx, "key": ".".join(ks), "value": v})
+                    report(R, "chk_meta", [ctx, ks, v], chk_meta(ctx, ks, v))
+
+    def scope_11():   # random breadth
+        n = 30000 if T else 2500
+        RK = ["a", "b", "c", ""]
+        RP = ["a", "b", "c", "", "x", "0"]
+        R.scope("all functions, random contexts", "%d random contexts over keys {a,b,c,''}, depth <= 3, uniquely tagged leaves incl. falsy ones, "
+                "each with a random path of length 0..4 over {a,b,c,'',x,'0'} (half of them chosen among the present paths): get_recursively, "
+                "contains, DeleteContext, format_context (0..3 random fields), format_update_with, to_string, UpdateContext with a random "
+                "option combination" % n, False)
+        dflt = ["default"]
+        for _ in range(n):
+            ctx = rand_ctx(rng, RK, 3, [0])
+            ks = [rng.choice(RP) for _ in range(rng.randint(0, 4))]
+            if rng.random() < 0.5:
+                ks, cur = [], ctx
+                while isinstance(cur, dict) and cur and rng.random() < 0.8:
+                    k = rng.choice(sorted(cur))
+                    ks.append(k)
+                    cur = cur[k]
+                if rng.random() < 0.3:
+                    ks.append(rng.choice(RP))
+            R.case(True, {"ctx": ctx, "path": ks})
+            fails = chk_get(ctx, ks, (UNSET, dflt))
+            for fid, what in fails:
+                R.fail(fid, what, {"checker": "chk_get", "args": [ctx, ks]}, {"fn": "chk_get", "args": [fid, ctx, ks, [UNSET, ["default"]]]})
+            if ks:
+                report(R, "chk_contains", [ctx, ks], chk_contains(ctx, ks))
+            notation = rng.choice(["dotted-string", "list", "tuple"])
+            if not (notation == "dotted-string" and ks == [""]):
+                report(R, "chk_delete", [ctx, ks, notation], chk_delete(ctx, ks, notation))
+            nice = [k for k in ks if k] or ["a"]
+            p = []
+            for i in range(rng.randint(0, 3)):
+                p.append(["L", rng.choice(["x", "_", "a.b", " "])])
+                p.append(["F", ".".join(nice[:rng.randint(1, len(nice))]) if rng.random() < 0.7 else rng.choice(["a", "b.a", "c.c.c", "q"]), ""])
+            report(R, "chk_fmt", [p, ctx], chk_fmt(p, ctx))
+            v = rng.choice([0, {"a": {"n": 1}}, "lit", tpl_text(p), ["l"]])
+            if ks != [""] and not (isinstance(v, str) and has_empty_component(p)):
+                report(R, "chk_fuw", [ctx, ks, v], chk_fuw(ctx, ks, v))
+            report(R, "chk_tostring", [ctx], chk_tostring(ctx))
+            if ks and ks != [""]:
+                o = rng.choice(opts)
+                jp = [x for x in p if not (x[0] == "F" and not all(c.isidentifier() for c in x[1].split(".")))]
+                src = ".".join(nice)
+                update = rng.choice([7, {"a": {"n": [1]}}, "lit", tpl_text(jp), "{{%s}}" % src, "{{%s}}" % src, "{{b.a}}"])
+                if isinstance(update, str) and "{" in update and jinja_pieces(update) is None and not (o["value"] and is_single_field(update)):
+                    update = "lit"
+                fails = chk_uc([ctx], ".".join(ks), update, o)
+                report(R, "chk_uc", [[ctx], ".".join(ks), update, o], fails)
+
+    # the law first, so that its witnesses are the ones kept for the shared failure id
+    for fn in (scope_2, scope_1, scope_3, scope_4, scope_5, scope_6, scope_7, scope_8, scope_9, scope_10, scope_11):
+        HANGS[0] = 0
+        t0 = time.time()
+        try:
+            fn()
+        except TooManyHangs:
+            R.fail("harness/scope-abandoned-after-5-non-terminating-calls", "scope %r abandoned: 5 calls of the real code did not return within 2 s "
+                   "(see the .../raises-Timeout failures)" % (R.cur["function"] if R.cur else fn.__name__))
+        if os.environ.get("C08_TIMING"):
+            sys.stderr.write("%-10s %6.2f s\n" % (fn.__name__, time.time() - t0))
 
 
 if __name__ == "__main__":
